@@ -112,7 +112,11 @@ def one(ctx, A, p, klass, eps, suc, box, bits_vec):
                 ctx.count("setting-types:" + ["float,float", "float64,float64", "float,float64", "float64,float"][sform])
                 e_arg = np.float64(eps) if sform in (1, 3) else eps
                 s_arg = np.float64(suc) if sform in (1, 2) else suc
-                ph = A.angle_sequence(pobj, eps=e_arg, suc=s_arg)
+                if zlib.crc32(repr((list(p), eps, suc, "call-form")).encode()) % 3 == 0:
+                    ctx.count("calling-form:positional")
+                    ph = A.angle_sequence(pobj, e_arg, s_arg)
+                else:
+                    ph = A.angle_sequence(pobj, eps=e_arg, suc=s_arg)
         out = ("ok", [float(x) for x in ph])
         core.poison(ph)
     except Exception as e:  # noqa
